@@ -587,6 +587,11 @@ func (fc *FnCtx) specCall(env *SpecEnv, e *SCall) Val {
 		case "int", "int32", "int64", "uint32", "uint64", "uint":
 			v := args(0)
 			return Val{v.T, types.Universe.Lookup(id.Name).Type()}
+		case "typename":
+			// typename(x): unqualified name of the dynamic type of an interface / pointer value
+			v := args(0)
+			smt.declare("tyname", "(declare-fun tyname (Int) Str)")
+			return Val{"(tyname (dyntype " + v.T + "))", types.Typ[types.String]}
 		case "calls":
 			// calls(f): number of calls of f made by this function so far (f must be listed in `counts`)
 			name := specTypeText(e.Args[0])
